@@ -21,10 +21,20 @@ def first_error(log):
 
 
 def matrix(tier):
+    import ftree
+    import tsm
     tus = []
     for D in (1, 2, 3, 4):
         for periodic in (0, 1):
             tus.append(("core D=%d periodic=%d double" % (D, periodic), core.harness_spec(D, periodic), (D, periodic)))
+    for D in (1, 2, 3, 4):
+        for periodic in (0, 1):
+            tus.append(("OpenMP executor D=%d periodic=%d" % (D, periodic), core.harness_spec(D, periodic, omp=True), None))
+    for D in (1, 2, 3, 4):
+        for periodic in (0, 1):
+            tus.append(("target/source tree + executors D=%d periodic=%d" % (D, periodic), tsm.harness_spec(D, periodic), None))
+    for cfg in ftree.CONFIGS:
+        tus.append(("tree with rebuild/export D=%d coord=%s data=%s extra=%d rhs=%d periodic=%d" % cfg, ftree.spec_of(cfg), None))
     return tus
 
 
